@@ -312,3 +312,45 @@ PROPS['C16'] = dict(
     level_note='Trusted: u128 schoolbook reference; row specs are read off names and parameter types (re-read against the body when a row fails). Output positions never overlap.',
     assumptions=['output strides >= 3 and output index arrays designate non-overlapping triples', 'challenge-sums operand is consistent with the second operand'],
 )
+
+_LEAK = {'PBT_LEAKCHECK': '1'}
+PROPS['C18'] = dict(
+    title='No out-of-bounds, uninitialised, mismatched-free or undefined behaviour',
+    jobs=[
+        # transforms: configuration enumeration + histories ending in destruction, ASan+UBSan+LSan per forked case
+        J('h_ntt', 'san2', 1, 1, only='c03.enum,c04.enum,c05.enum,c05.basis', wq=16, wt=16, args=['--enumerate', '--level', '0', '--enum-stride', '3'], tiers=['quick'], tag='enum', class_prefix='ntt:'),
+        J('h_ntt', 'san2', 1, 1, only='c03.enum,c04.enum,c05.enum,c03.basis,c04.basis,c05.basis', wq=16, wt=16, args=['--enumerate', '--level', '1'], tiers=['thorough'], tag='enum', env=_LEAK, class_prefix='ntt:'),
+        J('h_ntt', 'san2', 6000, 300_000, only='c19.history,c03.random,c04.random,c04.roundtrip,c05.random', wq=16, wt=16, args=['--level', '0'], tag='rnd', env=_LEAK, class_prefix='ntt:'),
+        # Poseidon: sponge lengths, tree shapes (AVX512 build: two rows per call), permutation
+        J('h_poseidon', 'san5', 1, 1, only='c07.lengths,c08.enum,c06.kat', wq=16, wt=16, args=['--enumerate', '--level', '0'], tiers=['quick'], tag='enum', class_prefix='poseidon:'),
+        J('h_poseidon', 'san5', 1, 1, only='c07.lengths,c08.enum,c06.kat', wq=16, wt=16, args=['--enumerate', '--level', '1'], tiers=['thorough'], tag='enum', class_prefix='poseidon:'),
+        J('h_poseidon', 'san5', 12_000, 1_000_000, only='c06.perm,c07.random,c08.random', wq=8, wt=16, tag='rnd', class_prefix='poseidon:'),
+        J('h_poseidon', 'san2', 1, 1, only='c07.lengths,c08.enum', wq=8, wt=16, args=['--enumerate', '--level', '0'], tag='enum', class_prefix='poseidon-avx2:'),
+        # kernels with exact-size coefficient arrays; cubic extension (batchInverse VLAs); all 164 + 156 overloads in exact-size arenas
+        J('h_lanes', 'san5', 60_000, 10_000_000, only='c13,c14', wq=6, wt=16, class_prefix='matrix:'),
+        J('h_cubic', 'san2', 150_000, 15_000_000, wq=4, wt=16, class_prefix='cubic:'),
+        J('h_cubic_batch', 'san5', 160_000, 30_000_000, wq=8, wt=16, class_prefix='cubic-batch:'),
+        J('h_wrappers', 'san5', 120_000, 30_000_000, only='c17.copy,c17.add,c17.sub,c17.mul', wq=8, wt=16, tag='rows', class_prefix='wrappers:'),
+        J('h_wrappers', 'san2', 4000, 200_000, only='c17.par', wq=8, wt=16, tag='par', class_prefix='wrappers:'),
+        J('h_scalar2', 'san2', 200_000, 20_000_000, only='c15', wq=4, wt=8, class_prefix='conversions:'),
+        # uninitialised stack reads: pattern-initialised automatic variables must not change any result (oracle = the functional oracles)
+        J('h_ntt', 'init2', 4000, 200_000, only='c19.history,c05.random', wq=8, wt=16, args=['--level', '0'], tiers=['thorough'], tag='rnd', class_prefix='autoinit:ntt:'),
+        J('h_poseidon', 'init2', 20_000, 1_000_000, only='c06.perm,c07.random,c08.random', wq=8, wt=16, tiers=['thorough'], tag='rnd', class_prefix='autoinit:poseidon:'),
+        # valgrind memcheck on the AVX2 build (valgrind 3.19 cannot execute AVX512): definedness of every value that reaches a branch or a syscall
+        J('h_poseidon', 'fast2', 300, 300, only='c07.random,c06.perm', wq=4, wt=4, tiers=['thorough'], tag='vg', wrap=['valgrind', '-q', '--error-exitcode=99', '--track-origins=no'], class_prefix='valgrind:poseidon:'),
+        J('h_cubic_batch', 'fast2', 2000, 2000, wq=4, wt=4, tiers=['thorough'], tag='vg', wrap=['valgrind', '-q', '--error-exitcode=99'], class_prefix='valgrind:cubic-batch:'),
+        J('h_wrappers', 'fast2', 2000, 2000, only='c17.copy,c17.add,c17.sub,c17.mul', wq=4, wt=4, tiers=['thorough'], tag='vg', wrap=['valgrind', '-q', '--error-exitcode=99'], class_prefix='valgrind:wrappers:'),
+    ],
+    rule='The generators of C03-C09, C13, C14, C16, C17, C19 re-run on AddressSanitizer + UndefinedBehaviorSanitizer builds (-O1, AVX2 and -D__AVX512__ configurations) with EXACT-SIZE heap allocations for every declared extent '
+         '(inputs, outputs, scratch buffers, trees, strided arenas end at the last designated cell), so one element past any extent is a report; UBSan covers integer/shift/alignment/VLA-bound UB; alloc-dealloc-mismatch covers the destructors; '
+         'transform cases run in forked children and end with object destruction followed by a LeakSanitizer check. A sanitizer report (child abort or worker death, attributed to the recorded current case) is the only failure counted here; '
+         'wrong values are charged to the functional properties. Thorough adds -ftrivial-auto-var-init=pattern builds (results must still match the oracles) and valgrind memcheck on AVX2 samples. '
+         'Non-trivial: as defined by the respective generators (smallest shapes: 1 row, 1 element, 0 columns, n < max domain, caller buffers are enumerated). distinct = distinct cases among non-trivial ones.',
+    expected_classes=['ntt:cfg:n=1', 'ntt:cfg:no-op(size0/ncols0)', 'ntt:cfg:caller-buffer', 'ntt:hist:two-extendPol-with-different-N', 'poseidon:mt:one-row', 'poseidon:mt:zero-cols', 'poseidon:lh:empty',
+                      'poseidon:merkletree_batch_avx512', 'cubic:batchInverse:len>64', 'wrappers:par:size-0'],
+    technique='sanitizer-instrumented (ASan/UBSan/LSan) re-run of all structural generators with exact-size allocations, fork-per-case crash capture; auto-var-init metamorphic builds; valgrind memcheck samples',
+    level_text='Memory-safety and UB are decided by executing the generated shapes of every structural property under sanitizers with allocations sized exactly to the documented extents; object lifetimes end every transform case.',
+    level_note='Trusted: ASan/UBSan/LSan of g++ 12, valgrind 3.19. In-bounds stray reads that do not change any output are invisible (partly covered by the junk metamorphic relations of C07/C16/C17). Shift UB at n >= 2^31 is unreachable in memory.',
+    assumptions=['documented shapes: scratch buffers of size*ncols, trees of getTreeNumElements(rows), power-of-two sizes'],
+)
+CFGS['init2'] = dict(cxx='g++', cflags=BASE + ' -O2 -mavx2 -ftrivial-auto-var-init=pattern', ldflags='-fopenmp')
